@@ -232,15 +232,17 @@ def rule_global_state(ctx: Ctx, prog: Program, extra_dir_positive_control: Optio
             continue
         is_main = m.name.endswith("__main__")
         for st in m.tree.body:
-            if isinstance(st, ast.Assign) and len(st.targets) == 1 and isinstance(st.targets[0], ast.Name):
+            if (isinstance(st, ast.Assign) and len(st.targets) == 1 and isinstance(st.targets[0], ast.Name)) or \
+                    (isinstance(st, ast.AnnAssign) and isinstance(st.target, ast.Name) and st.value is not None):
                 v = st.value
+                tname = st.targets[0].id if isinstance(st, ast.Assign) else st.target.id
                 kind = None
                 if isinstance(v, (ast.List, ast.Dict, ast.Set, ast.ListComp, ast.DictComp, ast.SetComp)):
                     kind = type(v).__name__
                 elif isinstance(v, ast.Call) and ast.unparse(v.func) in ("np.array", "numpy.array", "list", "dict", "set", "np.zeros", "np.empty", "defaultdict", "collections.defaultdict"):
                     kind = ast.unparse(v.func)
                 if kind:
-                    mutable_globals[(m.name, st.targets[0].id)] = kind
+                    mutable_globals[(m.name, tname)] = kind
                     n_globals += 1
         for n in ast.walk(m.tree):
             if isinstance(n, ast.Global) and not is_main:
@@ -265,6 +267,17 @@ def rule_global_state(ctx: Ctx, prog: Program, extra_dir_positive_control: Optio
                 if isinstance(itx, (ast.Set, ast.SetComp)) or (isinstance(itx, ast.Call) and ast.unparse(itx.func) in ("set", "frozenset")):
                     ctx.violation("R-GLOBAL-STATE", m.relpath, "<module>", "set-iteration", f"{m.relpath}:{getattr(itx, 'lineno', 0)}", "iteration over a set: order is not reproducible across runs")
     ctx.floor("R-GLOBAL-STATE:module-level-mutable-objects", n_globals, 6)
+    # memoising decorators keep results across solver constructions / registrations
+    for f in prog.all_functions():
+        if f.module.endswith("__main__"):
+            continue
+        for d in f.node.decorator_list:
+            tgt = d.func if isinstance(d, ast.Call) else d
+            nm = tgt.id if isinstance(tgt, ast.Name) else getattr(tgt, "attr", "")
+            if nm in ("lru_cache", "cache", "cached_property", "memoize"):
+                ctx.violation("R-GLOBAL-STATE", f.path, f.qualname, f"memoised:{nm}", f.loc(),
+                              f"{f.qualname} is memoised (@{nm}): its first result is replayed to every later caller in the process, "
+                              "whatever was registered or constructed in between")
     # writers of module-level mutable objects
     for f in prog.all_functions():
         if f.module.endswith("__main__"):
